@@ -2,12 +2,14 @@ INIT Init
 NEXT Next
 CONSTANT V = 10
 CONSTANT AllowStale = TRUE
-CONSTANT MaxNew = 2
+CONSTANT MaxNew = 1
 CONSTANT TsPool = {1, 2}
 CONSTANT Servers <- ServersImpl
 CONSTANT NewIds <- NewIdsImpl
 CONSTANT IdLess <- IdLessImpl
-CONSTANT BaseNames = {"prefork"}
+CONSTANT AllSubsets = TRUE
+CONSTANT Triples = TRUE
+CONSTANT BaseNames = {"bare", "public", "mainline", "invite", "prefork", "powerfork", "restricted", "nopl", "twostep"}
 INVARIANT InvIdentity
 INVARIANT Emit
 CHECK_DEADLOCK FALSE
